@@ -21,7 +21,7 @@ import (
 // obs is what the monitors see after a step, at quiescence.
 type obs struct {
 	nodes   []casper.VerifNode
-	tree    map[bc.Hash]*casper.VerifNode     // engine tree by hash
+	tree    map[bc.Hash]*casper.VerifNode      // engine tree by hash
 	store   map[bc.Hash]state.CheckpointStatus // persisted status of every stored checkpoint block of the harness tree
 	lastFin bc.Hash
 	lastJus bc.Hash
